@@ -30,6 +30,9 @@ TOKEN_METHODS = ('identifier', 'keyword', 'stringliteral', 'bytesliteral', 'fstr
 INLINE_HELPERS = ('_expression', '_testlist', '_exprlist', '_lhs', '_rhs', 'precedence', '_is_left_associative', '_is_right_associative',
                   'pattern', 'key_datum')
 OPERATOR_TAGS = tags_of_class((real_ast.operator, real_ast.unaryop, real_ast.boolop, real_ast.cmpop))
+L5_UNREAD = object()
+L5_IGNORED = {'ctx', 'kind', 'type_comment', 'type_ignores', 'lineno', 'col_offset', 'end_lineno', 'end_col_offset',
+              ('BoolOp', 'op')}     # BoolOp.op is printed between the values inside the loop (absent in the arbitrary FIRST iteration); symbol by visit_<Op>
 COMPOUND_TAGS = {'If', 'For', 'AsyncFor', 'While', 'Try', 'TryStar', 'With', 'AsyncWith', 'FunctionDef', 'AsyncFunctionDef', 'ClassDef', 'Match'}
 EXPR_TAGS = tags_of_class(real_ast.expr)
 
@@ -790,6 +793,86 @@ def task_visit(receiver, tag, method):
                              'child_tagvar': 'tag_' + d.name, 'op_tagvar': ('tag_' + ctx.data(ctx.data(owner).fields['op']).name)
                              if isinstance(ctx.data(owner).fields.get('op'), Obj) else None,
                              'child_op_tagvar': ('tag_' + ctx.data(d.fields['op']).name) if isinstance(d.fields.get('op'), Obj) else None}
+        # L5: nothing of the node is dropped -- every field that carries program text is read and reaches the output on every path
+        if raised is None and (method == 'visit_' + tag or method == '_yield_expr') and tag not in ('JoinedStr', 'FormattedValue', 'Constant') and tag not in OPERATOR_TAGS \
+                and receiver in ('ModulePrinter', 'ExpressionPrinter'):
+            from pyvc.interp import fields_of
+            rd = ctx.data(root)
+            ev_objs = [t.obj for t in toks if t.kind in ('child', 'opnode', 'suite') and isinstance(t.obj, Obj)]
+
+            def top_field(o):
+                # the field of root an event object descends from (None: not traceable, e.g. an element of a concatenated or zipped list)
+                seen_o = 0
+                while isinstance(o, Obj) and seen_o < 20:
+                    seen_o += 1
+                    og = getattr(ctx.data(o), 'origin', None)
+                    if og is None:
+                        return None
+                    if og[0] == root:
+                        return og[1]
+                    o = og[0]
+                return None
+            traced = [top_field(o) for o in ev_objs]
+            untraceable = any(t is None and o != root for t, o in zip(traced, ev_objs))
+            delegated = any(o == root for o in ev_objs)
+            tok_text = ' '.join(repr(t.kwargs.get('args')) for t in toks if t.kind not in ('child', 'opnode', 'suite'))
+            pc_text = None
+            for fname, ty, q in ([] if delegated else fields_of(tag)):
+                if fname in L5_IGNORED or (tag, fname) in L5_IGNORED:
+                    continue
+                oname = 'C02/L5/%s.%s[%s]/%s-is-printed' % (receiver, method, tag, fname)
+                val = rd.fields.get(fname, L5_UNREAD)
+                if q == '*':
+                    l5_lists.setdefault(fname, {'read': False, 'printed': False})
+                    if val is L5_UNREAD:
+                        continue
+                if (tag, fname) == ('Subscript', 'slice') and len([t for t in toks if t.kind == 'delimiter' and t.text == '.']) == 3:
+                    continue        # an Ellipsis subscript is printed as three dots by visit_Ellipsis
+                if val is L5_UNREAD:
+                    ctx.check(oname, False, kind='post', detail='the method never reads %s.%s' % (tag, fname))
+                    continue
+                if val is None:
+                    continue
+                if ty in ('identifier', 'string', 'int'):
+                    if q == '*':
+                        # list of identifiers (Global.names, MatchClass.kwd_attrs ...): over all paths, some path prints an element as an identifier
+                        st = l5_lists.setdefault(fname, {'read': False, 'printed': False})
+                        st['read'] = True
+                        items = list(ctx.data(val).items.values()) if isinstance(val, Obj) else []
+                        names = [v.decl().name() for v in items if z3.is_expr(v) and v.num_args() == 0]
+                        if any(nm in tok_text for nm in names) or (not names and any(t.kind == 'identifier' for t in toks)):
+                            st['printed'] = True
+                        continue
+                    if not (z3.is_expr(val) and val.num_args() == 0):
+                        continue
+                    nm = val.decl().name()
+                    if ty != 'int' and ctx.solver.check(z3.Length(val) > 0) == z3.unsat:
+                        continue        # the empty identifier does not occur in parsed trees
+                    if nm in tok_text:
+                        ctx.check(oname, True, kind='post')
+                    else:
+                        if pc_text is None:
+                            pc_text = ' '.join(c.sexpr() for c in ctx.pc)
+                        ctx.check(oname, ty == 'int' and nm in pc_text, kind='post', detail='%s does not reach any token%s' % (nm, ' or branch' if ty == 'int' else ''))
+                    continue
+                if ty == 'constant':
+                    continue
+                if q == '*':
+                    # list of nodes: decided over ALL paths after the exploration (elements may reach the output through zip / concatenation /
+                    # index arithmetic, and a loop over a possibly empty list has paths that print nothing): some path must print an element
+                    st = l5_lists.setdefault(fname, {'read': False, 'printed': False})
+                    st['read'] = True
+                    if isinstance(val, Obj) and (val in ev_objs or fname in traced or untraceable):
+                        st['printed'] = True
+                    continue
+                if isinstance(val, Obj):
+                    ctx.check(oname, val in ev_objs or fname in traced, kind='post', detail='child %s is never printed' % ctx.data(val).name)
+            if tag == 'comprehension':
+                flag = rd.fields.get('is_async')
+                has_async = any(t.kind == 'keyword' and t.text == 'async' for t in toks)
+                if z3.is_expr(flag):
+                    ctx.check('C02/L5/%s.%s[%s]/async-keyword-exactly-for-asynchronous-comprehensions' % (receiver, method, tag),
+                              (flag != 0) if has_async else (flag == 0), kind='post', detail='async keyword printed: %s' % has_async)
         # L3 dispatch: which TokenPrinter method receives a constant
         if tag == 'Constant' and method == 'visit_Constant':
             v = ctx.data(root).fields.get('value')
@@ -828,11 +911,10 @@ def task_visit(receiver, tag, method):
             ctx.check('C02/L2/FormattedValue.visit_Lambda/lambda-is-parenthesised-in-a-replacement-field', ok, kind='emit', detail=repr(toks[:3]))
         return None
 
+    l5_lists = {}
     ex = Explorer(max_paths=6000)
     ex.explore(run)
     obs = list(ex.obligations)
-    for o in obs:
-        pass
     fns = [source.describe(spec)]
     for s in sorted(called):
         if s != spec and not s.startswith(TP):
@@ -841,6 +923,13 @@ def task_visit(receiver, tag, method):
             except Exception:
                 pass
     res = result([_ob_json(o) for o in obs], fns, ASSUMPTIONS, pruned=sorted(pruned))
+    for fname, st in sorted(l5_lists.items()):
+        if ex.undecided_reason:
+            break
+        res['obligations'].append({'name': 'C02/L5/%s.%s[%s]/%s-is-printed' % (receiver, method, tag, fname), 'status': 'proved' if st['printed'] else 'refuted',
+                                   'detail': ('some path prints elements of %s.%s' % (tag, fname)) if st['printed'] else
+                                   ('no path of the method prints an element of %s.%s%s' % (tag, fname, '' if st['read'] else ' (the field is never read)')),
+                                   'model': {}, 'time_s': 0, 'backend': 'engine', 'path': None, 'kind': 'post', 'goal': None})
     if ex.undecided_reason:
         res['obligations'].append({'name': prefix + '/engine', 'status': 'undecided', 'detail': ex.undecided_reason, 'model': {},
                                    'time_s': 0, 'backend': 'engine', 'path': None, 'kind': 'engine', 'goal': None})
